@@ -160,8 +160,57 @@ def run(ctx):
                     rep.violation("byte-order conversion changed a value: %s\n got  %s\n want %s" % (p[:200], d[:300], want_dump[:300]), {"input": p, "be": kv(m)["be"], "impl": r})
                 elif b != want_bytes:
                     rep.violation("message converted from the other byte order re-serialises differently: %s" % p[:200], {"input": p, "be": kv(m)["be"], "impl": r})
+    # the other entry points of the quantifier: dbus_message_iter_append_fixed_array (token F<c>) and the varargs
+    # dbus_message_append_args / dbus_message_get_args (command buildargs) must build the same message as append_basic / open_container
+    FIX = set("ybnqiuxtd")
+    variants = []       # (prog index, kind, line)
+    for idx, p in enumerate(progs):
+        parts = p.split(" ")
+        if len(parts) < 6 or impl[idx] == "!CRASH" or not impl[idx].startswith("getters="):
+            continue
+        toks = [t for t in parts[5:] if t]
+        if any(t[0] == "A" and len(t) == 2 and t[1] in FIX for t in toks):
+            variants.append((idx, "fixed_array", " ".join(parts[:5] + [("F" + t[1:]) if (t[0] == "A" and len(t) == 2 and t[1] in FIX) else t for t in toks])))
+        ok, depth, i = True, 0, 0
+        while i < len(toks) and ok:
+            t = toks[i]
+            if t[0] in "ybnqiuxtdsog" and len(t) >= 1:
+                i += 1
+            elif t[0] == "A" and len(t) == 2 and t[1] in (FIX | set("sog")):
+                i += 1
+                while i < len(toks) and toks[i] != "]":
+                    ok = ok and toks[i][0] == t[1]
+                    i += 1
+                i += 1
+            else:
+                ok = False
+        if ok and toks:
+            variants.append((idx, "append_args", "buildargs " + " ".join(parts[1:])))
+    vres, vcr = vlib.run_lines(info["wire_h"], [l for _, _, l in variants])
+    for line, err in vcr:
+        rep.violation("implementation crashed / asserted while building a well-typed message through append_fixed_array / append_args: `%s`: %s" % (line[:300], err[-700:]), {"input": line, "stderr": err})
+    nvar = {"fixed_array": 0, "append_args": 0, "get_args_readback": 0}
+    for (idx, kind, l), r in zip(variants, vres):
+        if r == "!CRASH":
+            continue
+        nvar[kind] += 1
+        i = impl[idx]
+        if not r.startswith("getters="):
+            rep.violation("the %s entry point refuses a well-typed program that append_basic/open_container accept (%s): %s" % (kind, r[:60], l[:300]), {"input": l, "impl": r, "reference": i})
+            continue
+        if kv(r)["bytes"] != kv(i)["bytes"]:
+            rep.violation("the %s entry point builds a different message than append_basic/open_container for the same values: %s\n %s\n %s" % (kind, l[:300], kv(r)["bytes"][:300], kv(i)["bytes"][:300]),
+                          {"input": l, "impl": r, "reference": i, "reference_input": progs[idx]})
+        if " getargs=" in r:
+            got = r.split(" getargs=", 1)[1].split(" copyserial=")[0]
+            body = dump_of(i, " copyserial=").split("body=[", 1)[1] if "body=[" in dump_of(i, " copyserial=") else ""
+            if got != "-":
+                nvar["get_args_readback"] += 1
+                if not (body.startswith(got + " ") or body == got + "]"):
+                    rep.violation("dbus_message_get_args reads `%s` for the first argument, the message holds `%s`: %s" % (got[:200], body[:200], l[:300]), {"input": l, "impl": r, "reference": i})
     rep.coverage.update({
-        "evaluations": len(progs) + len(phase2) + bs_cov.get("byteswap_cases", 0) + bs_cov.get("writer_programs", 0), "distinct_nontrivial": len(nontrivial), "programs": len(progs),
+        "entry_point_variants": nvar,
+        "evaluations": len(progs) + len(phase2) + len(variants) + bs_cov.get("byteswap_cases", 0) + bs_cov.get("writer_programs", 0), "distinct_nontrivial": len(nontrivial), "programs": len(progs),
         "rule": "well-typed construction programs: random type trees (depth <= 5) with range-edge values, NaN/inf/-0 doubles compared bitwise, empty arrays of every element alignment, "
                 "strings crossing every padding boundary, variants of containers, dict entries, nesting up to 32, 200 arguments; header fields through the setters in random order "
                 "with replacement/deletion; each program: bytes vs spec encoder, spec validity, reparse dump, re-marshal, other-byte-order encoding through the iterator, copy. "
